@@ -15,7 +15,7 @@ import re
 from dataclasses import dataclass, field
 
 from ..core import (AnalysisError, Report, call_name, dotted, enclosing_function, find_class,
-                    find_func, need, norm, short, ancestors)
+                    find_func, need, norm, short, ancestors, dfs_order)
 from ..effects import Effects, MODELS_PKG
 from ..index import CallGraph, Index
 
@@ -142,6 +142,8 @@ def deletion_sites(idx: Index, cg: CallGraph, eff: Effects) -> dict[str, list[tu
             continue
         if f.cls is not None and f.cls.name == 'ModelMixin':
             continue
+        if f.qual in idx.absorbed:
+            continue                    # read where it was inlined
         for n in ast.walk(f.node):
             if not isinstance(n, ast.Call):
                 continue
@@ -333,9 +335,10 @@ def r17_1_soft(rep: Report, idx: Index, cg: CallGraph, sites) -> None:
                     handled = True
         # replacement by a file of the same name keeps the reference valid
         replaced = False
+        order = dfs_order(f.node)
         for n in ast.walk(f.node):
             if isinstance(n, ast.Call) and call_name(n) == 'MediaFile' \
-                    and any(k.arg == 'name' for k in n.keywords) and n.lineno > node.lineno:
+                    and any(k.arg == 'name' for k in n.keywords) and order[id(n)] > order.get(id(node), 1 << 30):
                 replaced = True
         if handled or replaced:
             rep.ok(rid, f'{MODELS_DIR}/stream.py::Stream.timing_ref', key,
